@@ -1,6 +1,6 @@
 #!/bin/bash
 cd /verif
 for i in 01 02 03 04 05 06 07 08 09 10 11 12 13 14 15 16 17 18 19 20; do
-  ( s=$(date +%s); out=$(/venv/bin/python check.py C$i --tier thorough 2>&1 | grep -v "^KNOWN" | tail -1 | cut -c1-110); echo "C$i ($(( $(date +%s)-s ))s) $out" ) &
+  ( s=$(date +%s); out=$(/venv/bin/python check.py C$i --tier thorough 2>&1; echo "rc=$?"); rc=$(echo "$out" | tail -1); out=$(echo "$out" | grep -v "^KNOWN\|^rc=" | tail -1 | cut -c1-110); echo "C$i ($(( $(date +%s)-s ))s) $rc $out" ) &
   if (( $(jobs -r | wc -l) >= 4 )); then wait -n; fi
 done; wait
